@@ -1126,7 +1126,7 @@ class CallSpy:
         for c, t, text in self.rec:
             if c is cls and t == timing and "_from_dict" in text.split("(", 1)[0]:
                 pc = parse_call(text)
-                if pc is not None or "return cls" in text:
+                if pc is not None or "return cls(" in text:      # the stub of a lazily compiled method constructs nothing
                     out.append(pc)
         return out
 
